@@ -421,6 +421,13 @@ fn resolve_instruction_match_inner(
                     arg_value,
                     param.typ)?;
 
+                // An argument outside of its parameter's range fails the match,
+                // whether or not the production goes on to use its value
+                if constrained_arg_value.should_propagate()
+                {
+                    return Ok(constrained_arg_value);
+                }
+
                 eval_ctx.set_local(
                     &param.name,
                     constrained_arg_value);
